@@ -25,6 +25,8 @@ type Person struct {
 	City  string
 	Score int32
 	Tag   NamedStr
+	Nick  string `sql:",implicitnull"`
+	Blob  []byte
 }
 
 // Other is a second table sharing the batching context (shards must not mix).
@@ -74,6 +76,12 @@ func filters() []qspec {
 		{name: "row:id=int(2)", f: sqlgen.Filter{"id": 2}, row: true},
 		{name: "row:city=sf", f: sqlgen.Filter{"city": "sf"}, row: true},
 		{name: "row:id=int64(9)", f: sqlgen.Filter{"id": int64(9)}, row: true},
+		{name: "nick=empty(implicit NULL)", f: sqlgen.Filter{"nick": ""}},
+		{name: "nick=n", f: sqlgen.Filter{"nick": "n"}},
+		{name: "blob=[]byte(nil)", f: sqlgen.Filter{"blob": []byte(nil)}},
+		{name: "blob=b", f: sqlgen.Filter{"blob": []byte("b")}},
+		{name: "city=sf,nick=empty", f: sqlgen.Filter{"city": "sf", "nick": ""}},
+		{name: "row:nick=empty", f: sqlgen.Filter{"nick": ""}, row: true},
 		{name: "others:city=sf", table: "others", f: sqlgen.Filter{"city": "sf"}},
 		{name: "others:id=int(1)", table: "others", f: sqlgen.Filter{"id": 1}},
 	}
@@ -87,13 +95,13 @@ func filters() []qspec {
 
 var contents = [][][]driver.Value{
 	{ // duplicates, NULLs
-		{int64(1), int64(30), "sf", int64(5), "x"},
-		{int64(2), int64(30), "sf", int64(5), "y"},
-		{int64(3), nil, "sf", int64(0), "x"},
-		{int64(4), int64(41), "la", int64(5), ""},
+		{int64(1), int64(30), "sf", int64(5), "x", "n", []byte("b")},
+		{int64(2), int64(30), "sf", int64(5), "y", nil, nil},
+		{int64(3), nil, "sf", int64(0), "x", nil, []byte("b")},
+		{int64(4), int64(41), "la", int64(5), "", "m", nil},
 	},
 	{ // single row
-		{int64(1), nil, "la", int64(5), "x"},
+		{int64(1), nil, "la", int64(5), "x", nil, nil},
 	},
 	{}, // empty table
 }
